@@ -17,8 +17,9 @@ def case_(
     default_source_: Observable[_T] | AnyFuture[_T] = default_source or empty()
 
     def factory(_: abc.SchedulerBase) -> Observable[_T]:
+        key = mapper()
         try:
-            result: Observable[_T] | AnyFuture[_T] = sources[mapper()]
+            result: Observable[_T] | AnyFuture[_T] = sources[key]
         except KeyError:
             result = default_source_
 
